@@ -26,6 +26,10 @@ type JV struct {
 	Float     *float64 // expected: a number equal to this float
 	Time      *TimeVal // expected: an RFC 3339 string for this instant
 	Unordered bool     // expected: members / elements derive from a Go map
+	// OptionalEmpty lists members that may appear with the value [] although
+	// the (normalised) slice is nil: a slice holding only nil pointers to
+	// integers is written as a present, empty field.
+	OptionalEmpty []string
 }
 
 type JPair struct {
@@ -156,7 +160,13 @@ func ExpectedJSON(t *TSpec, opt string, v Val) JV {
 		o := JV{Kind: "obj"}
 		for i, f := range u.Fields {
 			_, fopt, ok := f.Enc()
-			if !ok || RefOmit(f.Type, v.L[i]) {
+			if !ok {
+				continue
+			}
+			if RefOmit(f.Type, v.L[i]) {
+				if k := f.Type.Under().Kind; k == KSlice {
+					o.OptionalEmpty = append(o.OptionalEmpty, f.OutName())
+				}
 				continue
 			}
 			o.Pairs = append(o.Pairs, JPair{f.OutName(), ExpectedJSON(f.Type, fopt, v.L[i])})
@@ -164,7 +174,16 @@ func ExpectedJSON(t *TSpec, opt string, v Val) JV {
 		return o
 	case KSlice:
 		a := JV{Kind: "arr"}
+		eu := u.Elem.Under()
 		for _, e := range v.L {
+			if eu.Kind == KPtr && e.Nil {
+				if RefWireType(u.Elem, "", Cfg{}) == WTVarInt {
+					continue // nil pointers to integers are not encoded
+				}
+				// other nil pointers are encoded as an empty body
+				a.Elems = append(a.Elems, emptyBodyJSON(eu.Elem))
+				continue
+			}
 			a.Elems = append(a.Elems, ExpectedJSON(u.Elem, "", e))
 		}
 		return a
@@ -190,6 +209,22 @@ func ExpectedJSON(t *TSpec, opt string, v Val) JV {
 		return a
 	}
 	panic("ExpectedJSON: kind " + string(u.Kind))
+}
+
+// emptyBodyJSON is the rendering of an element whose encoded body is empty.
+func emptyBodyJSON(t *TSpec) JV {
+	u := t.Under()
+	switch u.Kind {
+	case KStruct:
+		return JV{Kind: "obj"}
+	case KSlice:
+		return JV{Kind: "arr"}
+	case KTime:
+		return JV{Kind: "str", Time: &TimeVal{Sec: ZeroUnix}}
+	case KPtr:
+		return emptyBodyJSON(u.Elem)
+	}
+	return JV{Kind: "str", Str: ""}
 }
 
 // MatchJSON compares an expectation with a parsed document.
@@ -256,6 +291,23 @@ func MatchJSON(want, got JV, path string) error {
 			}
 		}
 	case "obj":
+		if len(want.OptionalEmpty) > 0 && len(got.Pairs) > len(want.Pairs) {
+			var kept []JPair
+			for _, p := range got.Pairs {
+				drop := false
+				if p.V.Kind == "arr" && len(p.V.Elems) == 0 {
+					for _, k := range want.OptionalEmpty {
+						if k == p.K {
+							drop = true
+						}
+					}
+				}
+				if !drop {
+					kept = append(kept, p)
+				}
+			}
+			got.Pairs = kept
+		}
 		if len(want.Pairs) != len(got.Pairs) {
 			return fmt.Errorf("%s: want %d members %v, got %d %v", path, len(want.Pairs), pairKeys(want), len(got.Pairs), pairKeys(got))
 		}
